@@ -25,6 +25,8 @@ CONSTANTS TreeSet,        \* the source trees the environment may switch between
           \* protocol choices, set to what /repo does
           CombinerClearsQueueOnFailedFlush,
           GcStopsOnUnreadableHunk,
+          GcRefusesHeadlessNewest, \* a newest band directory without a tail makes gc refuse even when it has no head yet (TRUE in /repo:
+                               \* a backup that has just made its directory looks exactly like that)
           GcBandsBeforeBlocks, \* delete removes the versions' directories first, unreferenced blocks afterwards (TRUE in /repo)
           BkRechecksLock,   \* backup looks at the gc lock again after creating its band (TRUE since c3178ec)
           AllowConcurrent,  \* a backup and a delete/gc may run at the same time
@@ -328,7 +330,8 @@ GcListBands ==
 
 GcCheckTail ==
     /\ gc.pc = "CheckTail"
-    /\ gc' = IF gc.last # -1 /\ ~TailFile(fs, gc.last) THEN [gc EXCEPT !.pc = "Done", !.res = "refused"]
+    /\ gc' = IF gc.last # -1 /\ ~TailFile(fs, gc.last) /\ (GcRefusesHeadlessNewest \/ HeadOK(fs, gc.last))
+             THEN [gc EXCEPT !.pc = "Done", !.res = "refused"]
              ELSE [gc EXCEPT !.pc = "CheckLock"]
     /\ UNCHANGED <<fs, src, bk, snap, partial, cnt>>
 
@@ -354,7 +357,7 @@ GcListKeep ==
 \* read the head of every kept band and every hunk listed in it; a read may fail
 GcReadRefs ==
     /\ gc.pc = "ReadRefs"
-    /\ IF \E b \in gc.keep : ~HeadOK(fs, b)
+    /\ IF \E b \in gc.keep : ~HeadOK(fs, b) /\ (GcRefusesHeadlessNewest \/ TailFile(fs, b))
        THEN /\ gc' = [gc EXCEPT !.pc = "Release", !.res = "err"] /\ UNCHANGED cnt
        ELSE IF gc.toread = {}
        THEN /\ gc' = [gc EXCEPT !.pc = "ListBlocks"] /\ UNCHANGED cnt
